@@ -7,19 +7,52 @@
    redirect / external / unparsable / unsupported responses to every specifier),
    a completed build leaves no entry pending (C03_no_pending), by the invariant
    "every pending entry has a queued load" over every step of the build loop.
-   Termination of the loop itself (C03_terminates) is NOT proved: the model's
-   loop runs on fuel [build_fuel W] and the theorem is conditional on the build
-   returning; the correspondence run checks on every explored world (incl. the
-   exhaustive fault assignments) that the fuel is never exhausted and that the
-   real build returns.  Panic-freedom, absence of INTERNAL ERROR in the
+   Termination IS proved (C03_terminates, C03_loop_step_decreases): every
+   iteration of the loop strictly decreases a natural-number measure (6 per
+   specifier nothing is known about, 2 per asset-only entry or unawaited asset
+   load in flight, 3 / 1 per queued asset / module load, 1 per deferred module
+   load, plus the dynamic branches not collected yet), whatever the loader
+   answers - redirect chains and cycles, modules answered under other final
+   specifiers, checksum failures with their retry - and from whatever graph the
+   build starts.  The model's loop runs on fuel computed from that measure, so
+   [build] and [reload] never return None.  (Before the repair 50c93c4 the loop
+   did NOT terminate: F-C03e.)  Panic-freedom, absence of INTERNAL ERROR in the
    serialised graph, error entries stored under their own specifier with a
    referrer, and fault locality are decided on the real code per case. *)
-From DG Require Import Base.Util Base.Sexp Model.Graph Model.Builder Proofs.BuilderProofs.
+From DG Require Import Base.Util Base.Sexp Model.Graph Model.Builder Proofs.BuilderProofs Proofs.Termination.
 
 Theorem C03_no_pending : forall W o g roots imports g',
   no_pending (bg_slots g) -> build W o g roots imports = Some g' -> no_pending (bg_slots g').
 Proof. exact build_no_pending. Qed.
 Print Assumptions C03_no_pending.
+
+
+(* termination: a build (and a reload) returns, whatever the loader answers and whatever graph it starts from *)
+Theorem C03_terminates : forall W o g roots imports,
+  no_pending (bg_slots g) -> build W o g roots imports <> None.
+Proof. exact build_terminates. Qed.
+Print Assumptions C03_terminates.
+
+Theorem C03_reload_terminates : forall W o g specs,
+  no_pending (bg_slots g) -> reload W o g specs <> None.
+Proof. exact reload_terminates. Qed.
+Print Assumptions C03_reload_terminates.
+
+(* the reason: one iteration of the loop strictly decreases the measure (U: duplicate-free, contains every
+   specifier the world mentions; Ok: everything queued in the state is in U, and dynamic branches are only
+   collected before they are followed) *)
+Theorem C03_loop_step_decreases : forall W o U,
+  NoDup U -> (forall x, In x (world_specs W) -> In x U) ->
+  forall st, Ok U st -> PendInv None st -> idle st = false ->
+  Ok U (loop_step W o st) /\ (tmeasure U (loop_step W o st) < tmeasure U st)%nat.
+Proof. exact loop_step_decreases. Qed.
+Print Assumptions C03_loop_step_decreases.
+
+(* together: a build from the empty graph yields a graph, and it has no pending entry *)
+Theorem C03_build_total : forall W o k roots imports,
+  exists g, build W o (empty_bgraph k) roots imports = Some g /\ no_pending (bg_slots g).
+Proof. exact build_from_empty_terminates. Qed.
+Print Assumptions C03_build_total.
 
 (* the invariant behind it, for one delivered load *)
 Theorem C03_step_invariant : forall W o st, PendInv None st -> PendInv None (loop_step W o st).
